@@ -469,7 +469,8 @@ class Builtins:
         if it.static is not None:
             return [(VIter(it.n, None, static=tuple(VTuple((VInt(z3.IntVal(k)), x)) for k, x in enumerate(it.static))), st)]
         if it.keep is not None:
-            raise OutOfSubset('enumerate over filtered source', node)
+            cnt, pos, rank = self.kept_positions(it.keep, it.n, st)
+            return [(VIter(cnt, lambda i, s: VTuple((VInt(i), it.at(pos(i), s)))), st)]
         return [(VIter(it.n, lambda i, s: VTuple((VInt(i), it.at(i, s)))), st)]
 
     def bi_zip(self, args, kwargs, st, node):
